@@ -290,4 +290,41 @@ theorem ctx_msgs (descr exp : List Char) (k : Kind) :
     (Gen.Leaf.InterpolatedValueNotString k).msg = c!"interpolated values can only be strings, got '" ++ Gen.typeNameDiag k ++ c!"'" :=
   ⟨rfl, rfl, rfl, rfl, rfl, rfl⟩
 
+/-! ## the same domain, read off the source on every run
+
+`Gen.binopArms` / `Gen.binopDelegates` are regenerated by tools/extract.py from `apply_binary_operation` (src/eval/mod.rs):
+for every operator the `(Value::K(a), Value::K(b))` arms of its operand match (everything else falls to the
+`InvalidOpTypes` default arm; a guard, a one-sided wildcard or any other arm shape is an extraction error).  -/
+
+/-- the arms present in the source are exactly the documented domain … -/
+theorem source_arms_are_the_documented_domain :
+    ∀ op ∈ [BinaryOp.Sum, .Sub, .Mul, .Div, .Mod, .And, .Or, .Gt, .Gte, .Lt, .Lte],
+    ∀ l ∈ [Kind.Null, .Bool, .Int, .Str, .List, .Object, .BuiltinFunc, .Func],
+    ∀ r ∈ [Kind.Null, .Bool, .Int, .Str, .List, .Object, .BuiltinFunc, .Func],
+      allowed op l r = ((lookupAssoc op Gen.binopArms).getD []).contains (l, r) := by decide
+
+/-- … every operator is either in that table or handed to `eq` / `ref_eq` (which the C10 theorems cover) … -/
+theorem source_operators_partition :
+    Gen.binopArms.map Prod.fst = [.Sum, .Sub, .Mul, .Div, .Mod, .And, .Or, .Gt, .Gte, .Lt, .Lte] ∧
+    Gen.binopDelegates = [(.Eq, c!"eq"), (.Ne, c!"eq"), (.RefEq, c!"ref_eq"), (.RefNe, c!"ref_eq")] := by decide
+
+/-- … so the model answers with a value exactly where the source has an arm -/
+theorem model_domain_is_source_domain {fuel : Nat} {σ σ' : State} {op : BinaryOp} {loc : Loc} {a b v : Val}
+    (hop : op ∈ [BinaryOp.Sum, .Sub, .Mul, .Div, .Mod, .And, .Or, .Gt, .Gte, .Lt, .Lte])
+    (h : applyBinOp fuel σ op loc a b = .ok v σ') :
+    ((lookupAssoc op Gen.binopArms).getD []).contains (a.kind, b.kind) = true := by
+  have hd := binop_domain h
+  have hk : ∀ k : Kind, k ∈ [Kind.Null, .Bool, .Int, .Str, .List, .Object, .BuiltinFunc, .Func] := by
+    intro k; cases k <;> decide
+  rw [← source_arms_are_the_documented_domain op hop a.kind (hk _) b.kind (hk _)]
+  exact hd
+
+/-- the arms of `eq` and `ref_eq` in the source are the documented domains of `== !=` and `=== !==` (top level; inside
+    containers `eq` recurses with the same arms, which is what the C10 theorems are about) -/
+theorem source_eq_arms_are_the_documented_domain :
+    ∀ l ∈ [Kind.Null, .Bool, .Int, .Str, .List, .Object, .BuiltinFunc, .Func],
+    ∀ r ∈ [Kind.Null, .Bool, .Int, .Str, .List, .Object, .BuiltinFunc, .Func],
+      allowed .Eq l r = Gen.eqArms.contains (l, r) ∧ allowed .Ne l r = Gen.eqArms.contains (l, r) ∧
+      allowed .RefEq l r = Gen.refEqArms.contains (l, r) ∧ allowed .RefNe l r = Gen.refEqArms.contains (l, r) := by decide
+
 end Seed.C16
